@@ -62,6 +62,13 @@ def _is_opmap(ctx: Ctx, mod: Mod, node: ast.AST) -> bool:
             st = mod.parent_of(b)
             if isinstance(st, ast.Assign) and norm(st.value) == "dis.opmap":
                 return True
+            # code, op = co.co_code, dis.opmap
+            if isinstance(st, ast.Tuple):
+                asg = mod.parent_of(st)
+                if isinstance(asg, ast.Assign) and isinstance(asg.value, ast.Tuple) and len(asg.value.elts) == len(st.elts):
+                    for t_, v_ in zip(st.elts, asg.value.elts):
+                        if t_ is b and norm(v_) == "dis.opmap":
+                            return True
     return False
 
 
